@@ -675,7 +675,7 @@ def main(args=None):
                 print(f"Warning: Using {ArchitectureFeatures.DEFAULT_CONFIG} values for memory mode")
 
             arch = architecture_features.ArchitectureFeatures(
-                vela_config_files=args.config,
+                vela_config_files=config_files,
                 system_config=args.system_config,
                 memory_mode=args.memory_mode,
                 accelerator_config=args.accelerator_config,
